@@ -258,6 +258,10 @@ def link(draw, blocks, label_pool, allow_replace=True, allow_atype_sel=True, pre
         for _k in range(draw(st.integers(0, 2))):
             atom_key(draw(st.integers(0, nres - 1)))
         pool = list(atoms)
+        # an exclusion line may list more than two atoms: the first one is excluded from all the others
+        long_excl = sec == "exclusions" and len(pool) >= 3 and draw(st.integers(0, 2)) == 0
+        if long_excl:
+            need = 3
         if len(pool) < need:
             continue
         keys = list(draw(st.permutations(pool))[:need])
@@ -267,6 +271,10 @@ def link(draw, blocks, label_pool, allow_replace=True, allow_atype_sel=True, pre
         nterm = draw(st.sampled_from([1, 1, 2])) if sec == "dihedrals" else 1
         if nterm == 1:
             inter.append(draw(interaction(sec, keys)))
+            if long_excl and draw(st.booleans()):
+                # and the same atoms once more, listed from the other end (another first atom)
+                used.add((sec, tuple(keys[::-1])))
+                inter.append(draw(interaction(sec, keys[::-1])))
         else:
             for ver in range(1, nterm + 1):
                 it = draw(interaction(sec, keys, guard_ok=False, version=ver))
